@@ -2,6 +2,7 @@
   C05 — property theorems about the model in `Verif.Model.C05`.
 -/
 import Verif.Lemmas.C05
+import Verif.Lemmas.C05Num
 import Verif.Props.C02
 
 namespace Verif.C05
@@ -140,6 +141,49 @@ theorem crop_crop (s : C01.Src) (hdt : ∀ c, s = .cont c → 0 < c.dt) (a b c d
     (hdt' : ∀ c', cropChannel s a b = .cont c' → 0 < c'.dt) :
     (cropChannel (cropChannel s a b) c d).samples = (cropChannel s (max a c) (min b d)).samples := by
   rw [crop_is_slice _ hdt', crop_is_slice s hdt, crop_is_slice s hdt, C01.filter_inWin_inWin]
+
+/-! ## Sample period: stored as `1e9 / dt`, read back as `int(round(1e9 / rate))` (exact arithmetic) -/
+
+/-- `round`: a nearest integer … -/
+theorem roundHalfEven_nearest (y : Rat) :
+    (roundHalfEven y : Rat) - y ≤ 1 / 2 ∧ y - (roundHalfEven y : Rat) ≤ 1 / 2 := roundHalfEven_err y
+
+/-- … and on a tie the even one. -/
+theorem roundHalfEven_tie_even (y : Rat) (h : y - (y.floor : Rat) = 1 / 2) : roundHalfEven y % 2 = 0 := by
+  unfold roundHalfEven
+  simp only [h, lt_self_iff_false, if_false]
+  by_cases h3 : y.floor % 2 = 0
+  · rw [if_pos h3]; exact h3
+  · rw [if_neg h3]; omega
+
+example : roundHalfEven (5 / 2) = 2 ∧ roundHalfEven (7 / 2) = 4 ∧ roundHalfEven (-5 / 2) = -2 := by decide +kernel
+
+/-- The exact double-rounding function of the model (nearest, ties to even, 53 bits) meets the standard model of
+    floating-point arithmetic: relative error at most `2^-53` for every positive value. -/
+theorem double_rounding_std : StdModel flDouble := flDouble_std
+
+/-- Whatever the two divisions round to, as long as each is within relative error `2^-53`, a sample period of
+    `1 … 2^50` ns survives `to_dataset` → `from_dataset` unchanged. -/
+theorem period_round_trip (fl : Rat → Rat) (hfl : StdModel fl) (dt : Int) (h1 : 1 ≤ dt) (h2 : dt ≤ 2 ^ 50) :
+    periodOfRateQ fl (sampleRateQ fl dt) = dt := by
+  unfold periodOfRateQ sampleRateQ
+  obtain ⟨a, b⟩ := round_trip_near fl hfl dt h1 h2
+  exact roundHalfEven_of_near _ _ a b
+
+/-- non-vacuity: IEEE double rounding is such an `fl` -/
+example : StdModel flDouble := flDouble_std
+
+/-- The sample period written by `Continuous.to_dataset` and read by `Continuous.from_dataset` in double
+    arithmetic is the original one, for every period of `1 … 2^50` ns (> 13 days). -/
+theorem period_round_trip_double (dt : Int) (h1 : 1 ≤ dt) (h2 : dt ≤ 2 ^ 50) :
+    periodOfRateQ flDouble (sampleRateQ flDouble dt) = dt :=
+  period_round_trip flDouble flDouble_std dt h1 h2
+
+/-- Rounding is necessary (finding F7, fixed in /repo): the truncating read-back of the pinned snapshot loses a
+    nanosecond for a 55 ns period — kernel-evaluated on the exact doubles. -/
+theorem F7_witness_exact :
+    periodOfRateUnfixedQ flDouble (sampleRateQ flDouble 55) = 54 ∧
+    periodOfRateQ flDouble (sampleRateQ flDouble 55) = 55 := by decide +kernel
 
 /-! ## Time-stamped metadata items -/
 
